@@ -751,6 +751,13 @@ class SymFP(Sym):
     def isinf(self):
         return SymBool(z3.fpIsInf(self.t))
 
+    def round_to(self, bits):
+        """Value after being stored in a narrower IEEE format (float32 / float16), kept as a Float64 term (exact)."""
+        if self.t.sort() != F64:
+            return self
+        narrow = z3.Float32() if bits == 32 else z3.Float16()
+        return SymFP(z3.fpToFP(_RNE, z3.fpToFP(_RNE, self.t, narrow), F64), code=self.code)
+
     def to_int_code(self, info=None):
         """float -> integer dtype cast: truncation toward zero, kept as an exact WIDE value.
         The in-range side condition (no wrap) is recorded as an event for the harness."""
@@ -842,9 +849,44 @@ def ite(c, a, b):
         x, y = (fa._co(b)) if fa is not None else tuple(reversed(fb._co(a)))
         is_code = (fa is None or fa.code or not isinstance(a, SymFP)) and (fb is None or fb.code or not isinstance(b, SymFP))
         return SymFP(z3.If(ct, x, y), code=is_code and (getattr(fa, "code", False) or getattr(fb, "code", False)))
+    if not isinstance(a, Sym) and not isinstance(b, Sym) and mentions_fp(ct):
+        # a selection between two constants decided by an IEEE comparison stays in the IEEE world (the constants are
+        # doubles / small integers: exact), so that later arithmetic on it is rounded like the real code rounds it
+        try:
+            fa_, fb_ = float(a), float(b)
+            if (fa_ == a or fa_ != fa_) and (fb_ == b or fb_ != fb_):
+                return SymFP(z3.If(ct, z3.FPVal(fa_, F64), z3.FPVal(fb_, F64)), code=isinstance(a, int) and isinstance(b, int))
+        except (TypeError, ValueError, OverflowError):
+            pass
     na, nb = _num(a), _num(b)
     x, y, i = _unify(na[0], na[1], nb[0], nb[1])
     return _mk(z3.simplify(z3.If(ct, x, y)), i)
+
+
+_FP_MENTION: dict = {}
+
+
+def mentions_fp(t) -> bool:
+    """Does the term contain a floating-point subterm?"""
+    key = t.get_id()
+    hit = _FP_MENTION.get(key)
+    if hit is not None:
+        return hit
+    seen, stack, found = set(), [t], False
+    while stack and not found:
+        u = stack.pop()
+        i = u.get_id()
+        if i in seen:
+            continue
+        seen.add(i)
+        if z3.is_fp(u) or z3.is_fprm(u):
+            found = True
+            break
+        stack.extend(u.children())
+    if len(_FP_MENTION) > 200000:
+        _FP_MENTION.clear()
+    _FP_MENTION[key] = found
+    return found
 
 
 def _nan_first(a, b, pick):
